@@ -82,7 +82,7 @@ def check(seed, tier):
         if i is not None:
             evs[i]["result"].pop()
         return i
-    core.canary(rep, TRACE_SPEC, meta_g["files"][0], mutate)
+    core.canary(rep, TRACE_SPEC, meta_g["files"][0], mutate, n=1000)
 
     def mutate2(evs):
         # pretend a rejected format was parsed
@@ -90,7 +90,7 @@ def check(seed, tier):
         if i is not None:
             evs[i]["ok"] = True
         return i
-    core.canary(rep, TRACE_SPEC, meta_g["files"][0], mutate2, n=400)
+    core.canary(rep, TRACE_SPEC, meta_g["files"][0], mutate2, n=1000)
     rep.traces = meta_t["cases"] + meta_g["cases"]
     rep.events = meta_t["events"] + meta_g["events"]
     return rep.finish("model_checking", {
